@@ -60,7 +60,12 @@ def make_case(i, rng, tier):
     # convert
     fmt = rng.choice(("binary", "binary", "hex", "swtpm-log", "pcapng", "auto"))
     if fmt in ("swtpm-log", "pcapng", "auto") or rng.random() < 0.5:
-        inp = common.gen_input(rng, ("stream", None))
+        from .. import gen as _gen
+        k = _gen.Knobs(rng)
+        if fmt in ("auto", "binary") and rng.random() < 0.5:
+            k.p_text_tail, k.p_fail, k.p_sessions = 0.9, 0.0, 0.0      # binary content that ends like a text line
+            k.max_buf = max(k.max_buf, 2)
+        inp = common.gen_input(rng, ("stream", None), k)
     else:
         inp = common.gen_input(rng, common.target_for(10 ** 9, rng))
     if inp["root"].startswith(("TPMS_COMMAND_", "TPMS_RESPONSE_")) or "_SYN" in inp["root"]:
